@@ -45,8 +45,6 @@ def write_sites(prog):
 
 #: obligations whose failure contradicts the property (rule, construct pattern, why); every other failure is 'not recognised'
 POSITIVE: list[tuple[str, str, str]] = [
-    ('C14.R4', r'^default\[', 'declared type, default value and boolean check of a parameter disagree'),
-    ('C14.R3', r'^bioResults\.__init__$', 'must-pass: a results object can be constructed without recomputing its statistics'),
 ]
 
 
@@ -72,21 +70,21 @@ def run(ctx: Ctx) -> None:
             continue
         cfg = cfg_of(f.node)
         target = unparse(namee)
-        defs = [a for a in walk_no_nested(f.node) if isinstance(a, ast.Assign) and any(unparse(t) == target for t in a.targets)]
-        fresh = [a for a in defs if isinstance(a.value, ast.Call) and call_name(a.value) == 'get_new_file_name']
         here = cfg.node_of(c)
-        ok = len(defs) >= 1 and len(fresh) == len(defs) and any(cfg.dominates(cfg.node_of(a), here) for a in fresh)
-        if isinstance(namee, ast.Call) and call_name(namee) == 'get_new_file_name':
-            ok = True
+        # where the name comes from: the definitions that REACH the write (copies followed backwards), not every assignment of the function
+        orig = [(('unknown' if t == 'remembered' and _may_be_set_by_callee(f, cfg, e, here) else t), e) for t, e in _origins(cfg, namee, here)]
+        tags = {t for t, _ in orig}
+        ok = tags == {'fresh'}
         why = None
         if not ok:
-            stale = [a for a in defs if a not in fresh]
-            if not defs and target.startswith('self.'):
-                why = f'{target} is not assigned in {f.name}: the file is opened for writing under a name remembered from an earlier call'
-            elif fresh and not stale and not any(cfg.dominates(cfg.node_of(a), here) for a in fresh):
-                why = f'the call of get_new_file_name that defines {target} is not executed on every path to the write: on the others the remembered name is used'
-            elif stale and all(isinstance(a.value, (ast.JoinedStr, ast.Constant, ast.BinOp, ast.Attribute)) for a in stale):
-                why = f'{target} = {unparse(stale[0].value)[:60]} is a name built from fixed parts, not a name that get_new_file_name found free'
+            rem = [e for t, e in orig if t == 'remembered']
+            fixed = [e for t, e in orig if t == 'fixed']
+            if rem and 'fresh' in tags:
+                why = f'the call of get_new_file_name that defines {rem[0]} is not executed on every path to the write: on the others the remembered name is used'
+            elif rem:
+                why = f'{rem[0]} is not assigned in {f.name} before the write: the file is opened for writing under a name remembered from an earlier call'
+            elif fixed:
+                why = (f'{target} = {fixed[0][:60]}' if fixed[0] != target else 'the name') + ' is a name built from fixed parts, not a name that get_new_file_name found free'
         ctx.add('C14.R1', f'{owner}:write({target[:40]})', ok if (ok or why) else None, (f.file, c.lineno),
                 f'{unparse(c.func)}({target}) with {target} freshly obtained from get_new_file_name' if ok
                 else (f'{unparse(c.func)}({target}): {why} - an existing file can be replaced' if why else f'{unparse(c.func)}({target}): where the name comes from is not in a form the rule understands'), target, positive=bool(why))
@@ -152,10 +150,37 @@ for _N in _NAMES:
     ctx.add('C14.R2', 'bioResults.__str__', ok, s, 'the printed form joins all parameters' if ok else '__str__ no longer lists all parameters', 'str')
 
     init = BR.methods['__init__']
-    cfg = cfg_of(init.node)
-    calls = [x for x in walk_no_nested(init.node) if isinstance(x, ast.Call) and unparse(x.func) == 'self._calculate_stats']
-    ok = len(calls) == 1 and cfg.must_pass(0, {cfg.node_of(calls[0])})
-    ctx.add('C14.R3', 'bioResults.__init__', ok, init, 'statistics are recomputed on every construction, also from a pickle file' if ok else 'a results object can be constructed without recomputing its statistics', 'stats')
+    # this rule reads the class as it is written (the normal form would unfold a private method that is called once into the constructor):
+    # the statistics method is identified by what it does - the method(s) of the class that (with the methods they call on self) assign
+    # the derived statistics of the raw results - not by its name
+    raw = _raw_methods(prog.module('results').src, 'bioResults')
+    ctx.need('__init__' in raw, 'bioResults.__init__')
+    rinit = raw['__init__']
+    cfg = cfg_of(rinit)
+    stat = _statistics_methods(raw)
+    calls = [x for x in walk_no_nested(rinit) if isinstance(x, ast.Call) and isinstance(x.func, ast.Attribute) and dotted(x.func.value) == 'self' and x.func.attr in stat]
+    inline = _stored_statistics(rinit)
+    if not stat or not calls or inline:
+        ctx.add('C14.R3', 'bioResults.__init__', None, init, 'where the statistics of a results object are recomputed is not in a form the rule understands (' +
+                ('no method of bioResults assigns ' + ', '.join(f'self.data.{a}' for a in STATISTICS) if not stat else
+                 f'the constructor assigns {sorted(inline)} itself' if inline else f'the constructor does not call {sorted(stat)} directly') + ')', 'stats')
+    else:
+        from ..cfg import ENTRY
+        from .c13 import _guards
+
+        ok = cfg.must_pass(ENTRY, {cfg.node_of(x) for x in calls})
+        # a call steered by a flag computed in the constructor: the paths of the graph are not all feasible, nothing is claimed
+        local = {d.name for n_ in cfg.nodes() for d in cfg.defs()[n_] if '.' not in d.name}
+        flags = set()
+        for x in calls:
+            st_ = cfg.stmt[cfg.node_of(x)]
+            ch = _guards(rinit, st_) if isinstance(st_, ast.stmt) else 'other'
+            for t, _pol in (ch if isinstance(ch, list) else []):
+                flags |= {y.id for y in ast.walk(t) if isinstance(y, ast.Name)} & local
+        names = '/'.join(sorted({x.func.attr for x in calls}))
+        ctx.add('C14.R3', 'bioResults.__init__', ok if (ok or not flags) else None, init, f'statistics are recomputed on every construction, also from a pickle file: every normal exit passes self.{names}()' if ok else
+                f'a results object can be constructed without recomputing its statistics: some path from the entry of the constructor to a normal exit passes no call of self.{names}(), '
+                f'the method that assigns {", ".join("self.data." + a for a in STATISTICS)}', 'stats', positive=not flags)
     wp = BR.methods['write_pickle']
     dumps = [x for x in walk_no_nested(wp.node) if isinstance(x, ast.Call) and dotted(x.func) == 'pickle.dump']
     ok = len(dumps) == 1 and unparse(dumps[0].args[0]) == 'self.data'
@@ -304,31 +329,209 @@ for _SN, _ENTRIES in self.document.items():
             ___
 """)
         if b2 is not None:
-            pres = unparse(b2['__PRESENT'][1]).replace(b2['_EV'], 'entry_value')
-            if pres != 'entry_value is not None':
-                b = b2
-                b['__MISSING'] = (None, ast.parse(f'not ({pres})').body[0].value)
-    if b is not None:
-        det = unparse(b['__MISSING'][1]).replace(b['_EV'], 'entry_value')
-        ok = det == 'entry_value is None'
-    ctx.add('C14.R4', 'Parameters.import_document', ok if (ok or b is not None) else None, im, 'missing -> default; bool -> parse_boolean; anything else is kept as read' if ok else f'values read from the file are filtered by `{det}`: an admissible value (0, 0.0, empty string) may be replaced by the default', det, positive=b is not None)
+            b = b2
+            b['__MISSING'] = (None, ast.UnaryOp(op=ast.Not(), operand=b2['__PRESENT'][1]))
+    if b is None:
+        ctx.add('C14.R4', 'Parameters.import_document', None, im, det, 'restructured')
+    else:
+        from .c13 import _none_test
+
+        miss = b['__MISSING'][1]
+        det = unparse(miss).replace(b['_EV'], 'entry_value')
+        ok = _none_test(miss, b['_EV']) is True
+        # the contradiction: the test that selects the default also holds for values that can be read from the file
+        also = None if ok else _holds_for_a_value(miss, b['_EV'])
+        ctx.add('C14.R4', 'Parameters.import_document', ok if (ok or also) else None, im, 'missing -> default; bool -> parse_boolean; anything else is kept as read' if ok else
+                (f'the default replaces the value read from the file when `{det}`: {also}; an admissible value may be replaced by the default' if also else
+                 f'the test `{det}` that selects the default is not in a form the rule understands (expected: the value is None)'), det, positive=bool(also))
     ap = prog.func('default_parameters', 'all_parameters_tuple')
     npar = 0
+    dm = prog.module('default_parameters')
+    fields = [n_ for n_, _a, _v in prog.cls('default_parameters', 'ParameterTuple').fields]
+    isb = prog.resolve_expr(prog.module('check_parameters'), ast.Name(id='is_boolean', ctx=ast.Load()))
+    isb = isb[1] if isb is not None and isb[0] == 'func' else None
+
+    def value_of(e, depth=4):
+        """a module-level constant stands for its value"""
+        while depth and isinstance(e, ast.Name) and e.id in dm.assigns:
+            e, depth = dm.assigns[e.id], depth - 1
+        return e
+
     for c in ast.walk(ap.node):
         if isinstance(c, ast.Call) and call_name(c) == 'ParameterTuple':
-            kw = {k.arg: k.value for k in c.keywords}
-            name = const_value(kw['name'])
-            ty = unparse(kw['type'])
+            kw = {**dict(zip(fields, c.args)), **{k.arg: k.value for k in c.keywords if k.arg}}
+            if not {'name', 'value', 'type', 'check'} <= set(kw):
+                continue
             try:
-                v = const_value(kw['value'])
+                name = const_value(value_of(kw['name']))
+                v = const_value(value_of(kw['value']))
             except ValueError:
                 continue
             npar += 1
-            ok = {'bool': isinstance(v, bool), 'int': isinstance(v, int) and not isinstance(v, bool), 'float': isinstance(v, (int, float)) and not isinstance(v, bool), 'str': isinstance(v, str)}.get(ty, False)
-            checks = unparse(kw['check'])
-            okb = (ty == 'bool') == ('is_boolean' in checks)
-            ctx.add('C14.R4', f'default[{name}]', ok and okb, (ap.file, c.lineno), f'{name}: declared {ty}, default {v!r}' + ('' if ok and okb else ' - type, value and boolean check disagree'), f'{ty}:{v!r}:{"is_boolean" in checks}')
+            ty = unparse(value_of(kw['type']))
+            ok = {'bool': isinstance(v, bool), 'int': isinstance(v, int) and not isinstance(v, bool), 'float': isinstance(v, (int, float)) and not isinstance(v, bool), 'str': isinstance(v, str)}.get(ty)
+            # the functions of the check tuple, resolved through module constants and import aliases: identities, not texts
+            chk = value_of(kw['check'])
+            funcs = [prog.resolve_expr(dm, value_of(e)) for e in chk.elts] if isinstance(chk, (ast.Tuple, ast.List)) else None
+            if ok is None or isb is None or funcs is None or any(r is None or r[0] != 'func' for r in funcs):
+                ctx.add('C14.R4', f'default[{name}]', None, (ap.file, c.lineno), f'{name}: declared {ty}, default {v!r}, check {unparse(kw["check"])[:60]}: the declared type or the functions of the check are not resolved', f'{ty}:{v!r}:?')
+                continue
+            # a check counts as a boolean check when it is is_boolean or a function whose body tests isinstance(., bool) / calls is_boolean
+            def looks_at_bool(fi):
+                for x in (y for st in fi.node.body for y in ast.walk(st)):
+                    if isinstance(x, ast.Call) and (call_name(x) == 'is_boolean' or (call_name(x) == 'isinstance' and len(x.args) == 2 and any(isinstance(z, ast.Name) and z.id == 'bool' for z in ast.walk(x.args[1])))):
+                        return True
+                return False
+
+            exact = any(r[1] is isb for r in funcs)
+            boolean = exact or any(looks_at_bool(r[1]) for r in funcs)
+            # (a check of another type may well look at bool in order to refuse it: only is_boolean itself contradicts a non-boolean declaration)
+            okb = boolean if ty == 'bool' else not exact
+            ctx.add('C14.R4', f'default[{name}]', ok and okb, (ap.file, c.lineno), f'{name}: declared {ty}, default {v!r}' + ('' if ok and okb else
+                    (f' - the default value is not of the declared type' if not ok else f' - declared {ty} but ' + ('checked with is_boolean' if exact else 'is_boolean is not among its checks ' + str([r[1].name for r in funcs])))), f'{ty}:{v!r}:{boolean}', positive=True)
     ctx.floor('C14.R4', 25)
+
+
+#: derived quantities of a results object that are recomputed from the raw results (likelihood ratio test, rho-square, AIC, BIC, variance-covariance)
+STATISTICS = ('likelihoodRatioTest', 'rhoSquare', 'akaike', 'bayesian', 'varCovar')
+
+
+def _stored_statistics(func_node) -> set[str]:
+    return {n.attr for n in walk_no_nested(func_node) if isinstance(n, ast.Attribute) and isinstance(n.ctx, ast.Store) and n.attr in STATISTICS and dotted(n.value) == 'self.data'}
+
+
+def _raw_methods(src: str, cls_name: str) -> dict:
+    """method name -> FunctionDef of a class, parsed from the text of the module without any rewriting"""
+    for n in ast.parse(src).body:
+        if isinstance(n, ast.ClassDef) and n.name == cls_name:
+            return {st.name: st for st in n.body if isinstance(st, (ast.FunctionDef, ast.AsyncFunctionDef))}
+    return {}
+
+
+def _statistics_methods(methods: dict) -> set[str]:
+    """names of the methods of the class (the constructor apart) that assign all of STATISTICS, directly or through methods they call on self"""
+    direct = {name: _stored_statistics(m) for name, m in methods.items() if name != '__init__'}
+    called = {name: {c.func.attr for c in walk_no_nested(m) if isinstance(c, ast.Call) and isinstance(c.func, ast.Attribute) and dotted(c.func.value) == 'self' and c.func.attr in direct}
+              for name, m in methods.items() if name != '__init__'}
+    total = {k: set(v) for k, v in direct.items()}
+    changed = True
+    while changed:
+        changed = False
+        for k in total:
+            for c in called[k]:
+                if not total[c] <= total[k]:
+                    total[k] |= total[c]
+                    changed = True
+    return {k for k, v in total.items() if set(STATISTICS) <= v}
+
+
+def _holds_for_a_value(test: ast.expr, ev: str) -> str | None:
+    """the test (or one of its alternatives) is true for some value other than None that a parameter file can hold: which and why"""
+    if isinstance(test, ast.BoolOp) and isinstance(test.op, ast.Or):
+        return next((r for r in (_holds_for_a_value(v, ev) for v in test.values) if r), None)
+    if isinstance(test, ast.UnaryOp) and isinstance(test.op, ast.Not):
+        o = test.operand
+        if unparse(o) in (ev, f'bool({ev})'):
+            return f'`{unparse(test)}` holds for 0, 0.0, False and the empty string'
+        if isinstance(o, ast.UnaryOp) and isinstance(o.op, ast.Not):
+            return _holds_for_a_value(o.operand, ev)
+        return None
+    if isinstance(test, ast.Compare) and len(test.ops) == 1:
+        l_, r_ = test.left, test.comparators[0]
+        if isinstance(test.ops[0], ast.Eq):
+            for a, b_ in ((l_, r_), (r_, l_)):
+                if unparse(a) == ev and isinstance(b_, ast.Constant) and b_.value is not None:
+                    return f'`{unparse(test)}` holds for the value {b_.value!r}'
+                if unparse(a) == f'len({ev})' and isinstance(b_, ast.Constant):
+                    return f'`{unparse(test)}` holds for a text of that length'
+        if isinstance(test.ops[0], ast.In) and unparse(l_) == ev and isinstance(r_, (ast.Tuple, ast.List, ast.Set)):
+            vals = [e.value for e in r_.elts if isinstance(e, ast.Constant) and e.value is not None]
+            if vals:
+                return f'`{unparse(test)}` holds for the value {vals[0]!r}'
+    return None
+
+
+def _origins(cfg, expr: ast.expr, at: int, depth: int = 6) -> list[tuple[str, str]]:
+    """Where the value of a file-name expression comes from at cfg node ``at``: list of (tag, text) over the definitions that reach it
+    'fresh'       the result of get_new_file_name(...)
+    'remembered'  an attribute of self that some path from the entry of the function reaches without assigning it (state of an earlier call)
+    'fixed'       a text assembled from constants, parameters and attributes - nothing in it was obtained from get_new_file_name
+    'unknown'     anything else (a parameter, the result of another call, a loop variable, ...)"""
+    from ..cfg import ENTRY
+
+    if isinstance(expr, ast.Call):
+        return [('fresh' if call_name(expr) == 'get_new_file_name' else 'unknown', unparse(expr))]
+    name = dotted(expr) if isinstance(expr, (ast.Name, ast.Attribute)) else None
+    if name is not None:
+        if depth == 0:
+            return [('unknown', name)]
+        ds = cfg.reaching(at, name)
+        out: list[tuple[str, str]] = []
+        if name.startswith('self.') and cfg.path_avoiding(ENTRY, at, {d.node for d in ds} - {at}):
+            out.append(('remembered', name))
+        for d in ds:
+            if d.kind == 'assign' and d.value is not None:
+                out += _origins(cfg, d.value, d.node, depth - 1)
+            else:
+                out.append(('unknown', name))
+        return out or [('unknown', name)]
+    if isinstance(expr, ast.Constant) and isinstance(expr.value, str):
+        return [('fixed', unparse(expr))]
+    if isinstance(expr, (ast.JoinedStr, ast.BinOp)):
+        if any(isinstance(x, (ast.Call, ast.Subscript, ast.Lambda, ast.IfExp)) for x in ast.walk(expr)):
+            return [('unknown', unparse(expr))]
+        leaves: list[ast.expr] = []
+
+        def collect(e):
+            if isinstance(e, (ast.Name, ast.Attribute)) and dotted(e):
+                leaves.append(e)
+                return
+            for ch in ast.iter_child_nodes(e):
+                collect(ch)
+        collect(expr)
+        sub = {t for lf in leaves for t, _ in _origins(cfg, lf, at, depth - 1)}
+        # a parameter or an attribute of self inside the text is a fixed part; a part that may be a fresh name (or is not understood) is not
+        if sub & {'fresh'} or any(t == 'unknown' and not _is_param_or_attr(cfg, lf, at) for lf in leaves for t, _ in _origins(cfg, lf, at, depth - 1)):
+            return [('unknown', unparse(expr))]
+        return [('fixed', unparse(expr))]
+    return [('unknown', unparse(expr))]
+
+
+def _may_be_set_by_callee(f: FuncInfo, cfg, attr: str, at: int, depth: int = 3) -> bool:
+    """some call executed before cfg node ``at`` may assign the attribute ``attr`` of self: a method of the same object that stores it
+    (followed through the methods it calls), or a call that is handed the object / the record that carries the attribute and cannot be looked into"""
+    holders = {attr.rsplit('.', k)[0] for k in range(1, attr.count('.') + 1)}  # self, self.data, ...
+
+    def stores(func: FuncInfo, d: int) -> bool:
+        for n in walk_no_nested(func.node):
+            if isinstance(n, ast.Attribute) and isinstance(n.ctx, ast.Store) and dotted(n) == attr:
+                return True
+            if isinstance(n, ast.Call) and look(func, n, d):
+                return True
+        return False
+
+    def look(func: FuncInfo, call: ast.Call, d: int) -> bool:
+        if call_name(call) == 'get_new_file_name':
+            return False
+        if isinstance(call.func, ast.Attribute) and dotted(call.func.value) == 'self':
+            callee = func.cls.resolve(call.func.attr) if func.cls is not None else None
+            if callee is None or d == 0:
+                return True
+            return stores(callee, d - 1)
+        return any(dotted(a) in holders for a in list(call.args) + [k.value for k in call.keywords])
+
+    for n in walk_no_nested(f.node):
+        if isinstance(n, ast.Call):
+            cn = cfg.node_of(n)
+            if cn is not None and cn != at and cfg.reaches(cn, at) and look(f, n, depth):
+                return True
+    return False
+
+
+def _is_param_or_attr(cfg, leaf: ast.expr, at: int) -> bool:
+    name = dotted(leaf)
+    ds = cfg.reaching(at, name)
+    return (not ds and '.' in name) or (bool(ds) and all(d.kind == 'param' for d in ds))
 
 
 def const_tuple(node) -> tuple:
